@@ -61,6 +61,8 @@ class BusRun:
         self.ninst = 0
         self.keys = {}
         self.handlers = {}
+        self.regd = {}
+        self.nk_inst = -1
 
     # ---- programs taken from the schedule
     def program(self, kind, **match):
@@ -71,7 +73,7 @@ class BusRun:
                 self.consumed.add(i)
                 j = i + 1
                 prog = []
-                while j < len(self.sched) and self.sched[j]['op'] in ('post', 'add', 'remove'):
+                while j < len(self.sched) and self.sched[j]['op'] in ('post', 'add', 'remove', 'replace'):
                     self.consumed.add(j)
                     prog.append(self.sched[j])
                     j += 1
@@ -84,9 +86,9 @@ class BusRun:
 
     def mk_handler(self, hid):
         def hnd(**kwargs):
-            inst = kwargs.get('inst', -1)
+            inst = kwargs.get('inst', self.nk_inst)      # (a post without kwargs carries no instance id either)
             self.ev.append({'op': 'invoke', 'inst': inst, 'h': hid, 'a': str(kwargs.get('a', 'MISSING')),
-                            'c': kwargs.get('c', -1)})
+                            'c': kwargs.get('c', -1), 'r': str(kwargs.get('r', 'MISSING'))})
             prog, end = self.program('invoke', inst=inst, h=hid)
             self.depth += 1
             try:
@@ -102,8 +104,8 @@ class BusRun:
                 if inst % 2 == 0:
                     # as real handlers may: the returned arguments also carry a blocking entry (for a facility nobody
                     # uses here, so nothing is blocked); the other returned keys must still be taken over
-                    return {'a': hid, '_min_priority': {'verif_unused_facility': 1}}
-                return {'a': hid}
+                    return {'a': hid, 'r': hid, '_min_priority': {'verif_unused_facility': 1}}
+                return {'a': hid, 'r': hid}
             return None
         return hnd
 
@@ -124,7 +126,12 @@ class BusRun:
             i = self.ninst
             self.ev.append({'op': 'post', 'ev': s['ev'], 'ty': s['ty'], 'cb': bool(s['cb']), 'c': s['c']})
             f = {'plain': self.evm.post, 'boolean': self.evm.post_boolean, 'relay': self.evm.post_relay}[s['ty']]
-            go = lambda: f('vb_' + s['ev'], callback=self.mk_cb(i) if s['cb'] else None, inst=i, a='p', c=s['c'])
+            if s['c'] == -1:
+                # a post without any kwargs (hand-written schedules only, one such instance per run)
+                self.nk_inst = i
+                go = lambda: f('vb_' + s['ev'], callback=self.mk_cb(i) if s['cb'] else None)
+            else:
+                go = lambda: f('vb_' + s['ev'], callback=self.mk_cb(i) if s['cb'] else None, inst=i, a='p', c=s['c'])
             if self.depth and self.nestkind == 'run_now':
                 # the handler posts through a delay it runs at once (as e.g. the bonus mode's hurry-up does)
                 self.m.delay.add(ms=5000, callback=go, name='vb_nested')
@@ -141,15 +148,22 @@ class BusRun:
             if s['h'] in self.keys:
                 return
             hnd = self.mk_handler(s['h'])
-            name = 'vb_' + s['ev'] + ('{c==%d}' % s['cond'] if s['cond'] != -1 else '')
+            name = 'vb_' + s['ev'] + {-1: '', 0: '{c==0}', 1: '{c==1}', 2: '{a=="h"}', 3: '{a=="p"}'}[s['cond']]
             kw = {'a': 'h'} if s['hk'] else {}
             self.keys[s['h']] = self.evm.add_handler(name, hnd, priority=s['prio'], **kw)
+            self.regd[s['h']] = (name, hnd, kw)
             self.ev.append({'op': 'add', 'h': s['h'], 'ev': s['ev'], 'prio': s['prio'], 'hk': bool(s['hk']), 'cond': s['cond']})
         elif op == 'remove':
             if s['h'] not in self.keys:
                 return
             self.evm.remove_handler_by_key(self.keys.pop(s['h']))
             self.ev.append({'op': 'remove', 'h': s['h']})
+        elif op == 'replace':
+            if s['h'] not in self.keys:
+                return
+            name, hnd, kw = self.regd[s['h']]
+            self.keys[s['h']] = self.evm.replace_handler(name, hnd, priority=s['prio'], **kw)
+            self.ev.append({'op': 'replace', 'h': s['h'], 'prio': s['prio']})
 
     def in_context(self, fn):
         h, m = self.h, self.m
@@ -179,11 +193,11 @@ class BusRun:
         """The top-level bursts of the schedule, in order (consumes them)."""
         i, n = 0, len(self.sched)
         while i < n:
-            if i in self.consumed or self.sched[i]['op'] not in ('post', 'add', 'remove'):
+            if i in self.consumed or self.sched[i]['op'] not in ('post', 'add', 'remove', 'replace'):
                 i += 1
                 continue
             burst = []
-            while i < n and i not in self.consumed and self.sched[i]['op'] in ('post', 'add', 'remove'):
+            while i < n and i not in self.consumed and self.sched[i]['op'] in ('post', 'add', 'remove', 'replace'):
                 burst.append(self.sched[i])
                 self.consumed.add(i)
                 i += 1
@@ -234,11 +248,11 @@ class BusRun:
             i = 0
             n = len(self.sched)
             while i < n:
-                if i in self.consumed or self.sched[i]['op'] not in ('post', 'add', 'remove'):
+                if i in self.consumed or self.sched[i]['op'] not in ('post', 'add', 'remove', 'replace'):
                     i += 1
                     continue
                 burst = []
-                while i < n and i not in self.consumed and self.sched[i]['op'] in ('post', 'add', 'remove'):
+                while i < n and i not in self.consumed and self.sched[i]['op'] in ('post', 'add', 'remove', 'replace'):
                     burst.append(self.sched[i])
                     self.consumed.add(i)
                     i += 1
@@ -278,6 +292,11 @@ def handmade():
         # handler removes a lower-priority neighbour and itself during dispatch, then event again
         [A('h1', 'e1', 3), A('h2', 'e1', 2), A('h3', 'e1', 1), P('e1'), P('e1'), I(1, 'h1'),
          {'op': 'remove', 'h': 'h1'}, {'op': 'remove', 'h': 'h2'}, R()],
+        # a relay event posted without any kwargs: what the handlers return must still reach the later ones
+        [A('h1', 'e1', 3), A('h2', 'e1', 2, True), A('h3', 'e1', 1), P('e1', 'relay', True, c=-1), I(1, 'h1'), R('dict'),
+         I(1, 'h2'), R('dict'), I(1, 'h3'), R()],
+        [A('h1', 'e2', 3, True), A('h2', 'e2', 2), A('h3', 'e2', 1, True), P('e2', 'relay', False, c=-1), I(1, 'h1'), R('dict'),
+         I(1, 'h2'), R(), I(1, 'h3'), R('dict')],
         # callback posts a new event; nested callbacks
         [A('h1', 'e1', 1), A('h2', 'e2', 1), P('e1', cb=True), I(1, 'h1'), P('e2', cb=True), R(),
          {'op': 'callback', 'inst': 2}, P('e1'), {'op': 'cbend'}],
@@ -298,7 +317,7 @@ def run(ctx):
     ctx.coverage['monitors'] += ['DepthFirst', 'PriorityOrder', 'Serial', 'CallbackOnce', 'CallbackAfterSubtree', 'Complete']
     with open(wd + '/Gen.cfg', 'w') as f:
         f.write(cfg_text('Spec', '{"e1", "e2", "e3"}', '{"h1", "h2", "h3", "h4"}', 9, 18, '{}',
-                         '{"plain", "boolean", "relay"}', '{TRUE, FALSE}', 'DefaultCondSet', '{0, 1}', invs=False))
+                         '{"plain", "boolean", "relay"}', '{TRUE, FALSE}', 'FullCondSet', '{0, 1}', invs=False))
     behs, _ = tlc.simulate(wd, 'EventBus', 'Gen.cfg', num=400 if ctx.quick else 6000, depth=60 if ctx.quick else 90,
                            seed=ctx.seed)
     rnd = random.Random(ctx.seed)
